@@ -17,7 +17,7 @@ def run(ctx):
                 "concurrent Put/Delete/Delete2 on shared keys (same-epoch and cross-epoch deletes), iterators with refresh rates {0,1,3} and "
                 "visitors dereferencing every item, snapshot churn, GC and free workers; plus churn runs: Visitor (2-32 shards), refreshing iterators "
                 "and StoreToDisk loop over a pinned snapshot while two writers insert and delete neighbouring keys within the current epoch "
-                (every pointer a reader keeps across its tokens is exposed to reclamation); scenario kinds rotate over: instance built by Put / "
+                "(every pointer a reader keeps across its tokens is exposed to reclamation); scenario kinds rotate over: instance built by Put / "
                 "restored by LoadFromDisk with its writers created before the restore, pinned first snapshot / rolling latest snapshot (collection "
                 "and free workers busy), plain / delta-interleaved backups whose callbacks check the item handed to them against the allocator's "
                 "registry; allocator events and faults are judged by TLC (MemAPI.tla)")
